@@ -29,7 +29,11 @@ EXTENDS WSUpgrade, Json
 
 CONSTANTS Streams,      \* set of frame sequences, frame = [op, fin, len]
           RBufs, HSizes, ClientRBufs,
-          RespLen
+          RespLen,
+          \* control-frame sub-space: streams that carry a control frame of every payload size up to 125
+          \* x SMALL read buffers (below, at and above the 125-byte control payload maximum) x hijacked
+          \* reader sizes x a set of split points (KSet) instead of every offset
+          CtlStreams, CtlRBufs, CtlHSizes, CtlClientRBufs
 
 VARIABLES prog, pc, b
 mvars == << prog, pc, b >>
@@ -50,10 +54,24 @@ ClientProg(st, k, rb) ==
   [side |-> "client", frames |-> st, total |-> Bytes(st, FALSE), k |-> k, rbuf |-> rb, hsize |-> 0,
    path |-> "client", reads |-> NumMsgs(st) + 1]
 
+(* split points of the control-frame sub-space: nothing buffered, inside the *)
+(* first header, inside / at the end of the first payload, all but one     *)
+(* byte, everything (base = 0 server, RespLen client)                      *)
+KSet(st, masked, base) ==
+  LET t  == Bytes(st, masked)
+      h1 == HdrLen(st[1], masked)
+  IN {0, base + 1, base + h1, base + h1 + (st[1].len \div 2), base + h1 + st[1].len, base + t - 1, base + t}
+
 InitProg ==
   \/ \E st \in Streams : \E rb \in RBufs : \E hs \in HSizes : \E k \in 0..MinI(Bytes(st, TRUE), MaxI(hs, 16)) :
         prog = ServerProg(st, k, rb, hs)
   \/ \E st \in Streams : \E rb \in ClientRBufs : \E k \in 0..(RespLen + Bytes(st, FALSE)) :
+        prog = ClientProg(st, k, rb)
+  \/ \E st \in CtlStreams : \E rb \in CtlRBufs : \E hs \in CtlHSizes :
+        \E k \in {x \in KSet(st, TRUE, 0) : x >= 0 /\ x <= MinI(Bytes(st, TRUE), MaxI(hs, 16))} :
+        prog = ServerProg(st, k, rb, hs)
+  \/ \E st \in CtlStreams : \E rb \in CtlClientRBufs :
+        \E k \in {x \in KSet(st, FALSE, RespLen) \cup {RespLen - 1, RespLen} : x >= 0 /\ x <= RespLen + Bytes(st, FALSE)} :
         prog = ClientProg(st, k, rb)
 
 (* b: hijacked / connection buffer holds [lo,hi); the socket will deliver  *)
@@ -116,6 +134,15 @@ InvNoLossNoReorder ==
           /\ b.segs[1][1] = Start
           /\ b.segs[Len(b.segs)][2] = End
           /\ \A i \in 1..(Len(b.segs) - 1) : b.segs[i][2] = b.segs[i + 1][1]
+
+(* Whatever reader the returned connection uses, a whole control frame     *)
+(* payload (at most 125 bytes, RFC 6455 5.5) has to fit into it: the       *)
+(* capacity of the connection's reader is the hijacked reader's on the     *)
+(* reuse path and otherwise ReadBufferSize, never less than 125 (default   *)
+(* 4096) - in particular NOT a smaller size when bytes were buffered.      *)
+ReaderCap == IF prog.path = "reuse" THEN prog.hsize
+             ELSE IF prog.rbuf = 0 THEN 4096 ELSE MaxI(prog.rbuf, 125)
+InvControlFits == \A i \in 1..Len(prog.frames) : prog.frames[i].op >= 8 => prog.frames[i].len <= ReaderCap
 
 (* the wrapper never reads past the buffered bytes in one call *)
 InvNoOverRead ==
